@@ -391,11 +391,13 @@ type agedClientCase struct {
 	Seed uint64 `json:"seed"`
 	// MaxQty bounds the register counts of the FC3/FC4 requests (small frames age a client differently from large ones)
 	MaxQty int `json:"max_qty"`
+	// ExplicitParser: the client's configuration names the standard response parser explicitly (see cli.Scenario)
+	ExplicitParser bool `json:"explicit_parser,omitempty"`
 }
 
 func runAgedClient(c agedClientCase) harness.Result {
 	f := cli.FramingOf(c.Kind)
-	sess, err := cli.NewSession(c.Kind, 300, false)
+	sess, err := cli.NewSessionWith(c.Kind, 300, false, c.ExplicitParser)
 	if err != nil {
 		return harness.Fail("harness: %v", err)
 	}
@@ -449,7 +451,7 @@ func runAgedClient(c agedClientCase) harness.Result {
 var chkAgedClient = harness.Define("responses-through-long-lived-client",
 	func(t *rapid.T) agedClientCase {
 		return agedClientCase{Kind: rapid.SampledFrom([]string{cli.TCP, cli.RTUNet}).Draw(t, "kind"), N: rapid.SampledFrom([]int{300, 2500, 7000, 12000}).Draw(t, "n"),
-			Seed: rapid.Uint64().Draw(t, "seed"), MaxQty: rapid.SampledFrom([]int{1, 10, 125}).Draw(t, "max_qty")}
+			Seed: rapid.Uint64().Draw(t, "seed"), MaxQty: rapid.SampledFrom([]int{1, 10, 125}).Draw(t, "max_qty"), ExplicitParser: rapid.Bool().Draw(t, "explicit_parser")}
 	}, runAgedClient)
 
 func TestLongLivedClient(t *testing.T) {
